@@ -51,6 +51,9 @@ pub struct FileOpts {
     /// place `.external` declarations: 0 = before everything, 1 = between, 2 = after its uses, 3 = random
     pub ext_place: u8,
     pub max_blkw: u16,
+    /// put the first shared label this file defines on the very first word of its first block
+    #[serde(default)]
+    pub pin_first: bool,
 }
 
 #[derive(Clone, Debug)]
@@ -237,10 +240,16 @@ pub fn gen_file(r: &mut Rng, o: &FileOpts) -> GenFile {
     // shared labels defined by this file go on random statements
     let mode = r.below(3) as u8;
     let mut spelling: BTreeMap<String, String> = BTreeMap::new();
+    let mut pinned = false;
     for (name, role) in &o.shared {
-        if *role == Role::Define {
-            let b = r.below(blocks.len() as u64) as usize;
-            let i = r.below(blocks[b].1.len() as u64) as usize;
+        if *role == Role::Define && !blocks.is_empty() {
+            let (b, i) = if o.pin_first && !pinned {
+                pinned = true;
+                (0, 0)
+            } else {
+                let b = r.below(blocks.len() as u64) as usize;
+                (b, r.below(blocks[b].1.len() as u64) as usize)
+            };
             let sp = recase(r, name, 2);
             blocks[b].1[i].labels.push(sp);
         }
@@ -335,6 +344,8 @@ pub fn gen_file(r: &mut Rng, o: &FileOpts) -> GenFile {
         let place = if o.ext_place == 3 { r.below(3) as u8 } else { o.ext_place };
         let name = recase(r, e, 2);
         let nb = blocks.len();
+        // a file without any block can only declare its externals at top level
+        let place = if nb == 0 { 0 } else { place };
         let d = match place {
             0 => ExtDecl { name, inside: None, outside_before_block: Some(0) },
             2 => {
